@@ -406,3 +406,31 @@ Lemma sleep_until_step : forall f st incs p,
       else Some (st1, n, 1)
   end.
 Proof. reflexivity. Qed.
+
+(* ------------------------------------------------------------------ a store that shrinks under the worker *)
+Lemma remove_keys_nil : forall st, remove_keys [] st = st.
+Proof.
+  unfold remove_keys. induction st as [|[k v] r IH]; [reflexivity|]. simpl in *. now rewrite IH.
+Qed.
+
+Lemma run_phases_rm_step : forall rms f st p,
+  run_phases_rm rms (S f) st p =
+  let st0 := remove_keys (hd [] rms) st in
+  let l := load st0 p in
+  let '(st1, ex) := exec_all st0 (l_tasks l) in
+  if l_hasbarrier l then let '(st2, exs) := run_phases_rm (tl rms) f st1 p in (st2, ex :: exs)
+  else (st1, [ex]).
+Proof. reflexivity. Qed.
+
+Lemma run_phases_rm_nil : forall fuel st p, run_phases_rm [] fuel st p = run_phases fuel st p.
+Proof.
+  induction fuel as [|f IH]; intros st p; simpl; [reflexivity|]. rewrite remove_keys_nil.
+  destruct (exec_all st (l_tasks (load st p))) as [st1 ex]. now rewrite IH.
+Qed.
+
+(* whatever disappeared: in every phase a barrier() is passed only if every task before it has a result in the store
+   as it is at that load (barrier_passed_all_stored at that store); stated for the first phase of the remaining run *)
+Lemma run_phases_rm_barrier : forall rms st p pre post,
+  l_events (load (remove_keys (hd [] rms) st) p) = pre ++ EBar :: post ->
+  forall t, In (ETask t) pre -> stored (remove_keys (hd [] rms) st) (tid_of t) = true.
+Proof. intros rms st p pre post. apply barrier_passed_all_stored. Qed.
